@@ -56,7 +56,7 @@ def main():
             try:
                 res = mod.run_case(case)
                 rec = {"index": index, "result": res, "wall": round(time.time() - t0, 3)}
-            except Exception as e:  # noqa
+            except BaseException as e:  # noqa  (an injected KeyboardInterrupt/SystemExit escaping the API must not kill the worker)
                 tb = traceback.extract_tb(e.__traceback__)
                 txt = "".join(traceback.format_exception(type(e), e, e.__traceback__))
                 if classify_exception(tb, repo) == "api":
